@@ -45,7 +45,8 @@ class _Goto(Exception):
 
 
 class _Return(Exception):
-    pass
+    def __init__(self, label=None):
+        self.label = label
 
 
 class _Exit(Exception):
@@ -203,6 +204,7 @@ class Interp:
         self.labels = {}
         self.cur_stmt = None
         self.fail_stmt = None
+        self.last_kind = None
         self.part = None           # sub-line part of a block statement being evaluated
         self.resumed = False
         self._collect()
@@ -642,6 +644,7 @@ class Interp:
                 if k in ('if', 'ifl', 'for', 'while', 'do', 'select'):
                     raise Inconclusive('handled error in a block header')
                 self.err = code
+                self.last_kind = e.kind
                 self.resumed = True
                 if self.onerr[0] == 'next':
                     self.cur_stmt = prev
@@ -771,18 +774,29 @@ class Interp:
             try:
                 self.run_main_from(self.labels[s['label']] + 1)
                 raise _End()       # ran into the end of the program: it ends
-            except _Return:
-                pass
+            except _Return as rt:
+                if rt.label:
+                    # RETURN <label>: the GOSUB is finished, control goes to
+                    # the label instead of the statement after the GOSUB
+                    self.gosub_depth -= 1
+                    self._ret_goto = True
+                    raise _Goto(rt.label)
             finally:
-                self.gosub_depth -= 1
+                if not getattr(self, '_ret_goto', False):
+                    self.gosub_depth -= 1
+                self._ret_goto = False
         elif k == 'return':
-            raise _Return()
+            raise _Return(s.get('label'))
         elif k == 'call':
             proc = self.env.procs.get(s['name'])
             if proc is None:
                 raise Inconclusive('unknown sub')
             self.run_proc(proc, s['args'])
         elif k == 'onerr':
+            if self.in_handler and s['mode'] == 'off' and self.last_kind is not None:
+                # ON ERROR GOTO 0 inside a handler reports the error that
+                # is being handled, as if no handler had been armed
+                raise QBError(self.last_kind)
             if self.in_handler:
                 raise Inconclusive('ON ERROR inside a handler')
             if s['mode'] == 'goto':
@@ -858,7 +872,11 @@ class Interp:
         elif k == 'const':
             t, v = self.ev(s['e'])
             ct = name_type(s['name']) or t
-            self.consts[s['name']] = Cell(ct, v if ct == '$' else fit(ct, v))
+            c = Cell(ct, v if ct == '$' else fit(ct, v))
+            if self.scope.kind == 'main':
+                self.consts[s['name']] = c
+            else:
+                self.scope.vars[s['name']] = c      # local to the procedure
         elif k == 'raw':
             raise Inconclusive('statement outside the reference subset')
         else:
@@ -995,10 +1013,8 @@ class Interp:
             raise QBError('data')
         if ty in '%&' and not re.fullmatch(r'[+-]?[0-9]+', q):
             raise Inconclusive('non-integer DATA item read into an integer variable')
-        try:
-            return fit(ty, float(q) if ty in '!#' else int(q))
-        except QBError:
-            raise QBError('data')
+        # a well-formed number the variable cannot hold is an overflow
+        return fit(ty, float(q) if ty in '!#' else int(q))
 
     def do_input(self, s):
         d = self.dev
